@@ -8,8 +8,11 @@ import (
 	"bytes"
 	"fmt"
 	"go/ast"
+	"go/parser"
 	"go/printer"
 	"go/token"
+	"os"
+	"path/filepath"
 	"regexp"
 	"strconv"
 	"strings"
@@ -50,21 +53,482 @@ func leanStrList(xs []string) string {
 	return "[" + strings.Join(q, ", ") + "]"
 }
 
-// schemeSwitches returns every `switch <x>.Scheme` statement of fn, in source order.
-func schemeSwitches(fn *ast.FuncDecl) []*ast.SwitchStmt {
-	var out []*ast.SwitchStmt
+// ---- semantic recognisers (robust against behaviour-preserving refactors) ------------------------------
+//
+// A "scheme switch of F" is a switch whose tag is the address scheme, wherever it is executed on behalf of
+// F: in F itself or in a function/method of the same package that F calls (two levels), the tag being
+// `<x>.Scheme`, a local that is only ever assigned `<x>.Scheme`, or a parameter bound to such a value at the
+// call site.  A tag derived from the scheme by any computation (SplitN, ToLower, ...) does NOT count.
+
+// pkgFuncs18 indexes every function of the package (directory) of the file rel: "name" / "Recv.name".
+func pkgFuncs18(rel string) map[string]*ast.FuncDecl {
+	out := map[string]*ast.FuncDecl{}
+	dir := filepath.Dir(rel)
+	ents, err := os.ReadDir(filepath.Join(repo, dir))
+	if err != nil {
+		fail("read dir %s: %v", dir, err)
+		return out
+	}
+	for _, e := range ents {
+		n := e.Name()
+		if e.IsDir() || !strings.HasSuffix(n, ".go") || strings.HasSuffix(n, "_test.go") {
+			continue
+		}
+		f, err := parser.ParseFile(fset, filepath.Join(repo, dir, n), nil, 0)
+		if err != nil {
+			continue
+		}
+		for _, d := range f.Decls {
+			if fd, ok := d.(*ast.FuncDecl); ok && fd.Body != nil {
+				out[funcKey18(fd)] = fd
+			}
+		}
+	}
+	return out
+}
+
+func recvType18(fd *ast.FuncDecl) (typ, name string) {
+	if fd.Recv == nil || len(fd.Recv.List) == 0 {
+		return "", ""
+	}
+	t := fd.Recv.List[0].Type
+	if st, ok := t.(*ast.StarExpr); ok {
+		t = st.X
+	}
+	if len(fd.Recv.List[0].Names) > 0 {
+		name = fd.Recv.List[0].Names[0].Name
+	}
+	return exprString(t), name
+}
+
+func funcKey18(fd *ast.FuncDecl) string {
+	if t, _ := recvType18(fd); t != "" {
+		return t + "." + fd.Name.Name
+	}
+	return fd.Name.Name
+}
+
+// callee18 resolves a call made inside fn to a function of the same package (plain function, or a method
+// called on fn's own receiver).
+func callee18(fn *ast.FuncDecl, c *ast.CallExpr, funcs map[string]*ast.FuncDecl) *ast.FuncDecl {
+	switch f := c.Fun.(type) {
+	case *ast.Ident:
+		if d := funcs[f.Name]; d != nil && d.Recv == nil {
+			return d
+		}
+	case *ast.SelectorExpr:
+		if x, ok := f.X.(*ast.Ident); ok {
+			if t, rn := recvType18(fn); t != "" && rn == x.Name {
+				return funcs[t+"."+f.Sel.Name]
+			}
+		}
+	}
+	return nil
+}
+
+func paramNames18(fd *ast.FuncDecl) []string {
+	var out []string
+	for _, fl := range fd.Type.Params.List {
+		if len(fl.Names) == 0 {
+			out = append(out, "_")
+		}
+		for _, n := range fl.Names {
+			out = append(out, n.Name)
+		}
+	}
+	return out
+}
+
+func unparen18(e ast.Expr) ast.Expr {
+	for {
+		p, ok := e.(*ast.ParenExpr)
+		if !ok {
+			return e
+		}
+		e = p.X
+	}
+}
+
+func isSchemeExpr18(e ast.Expr, ids map[string]bool) bool {
+	switch x := unparen18(e).(type) {
+	case *ast.SelectorExpr:
+		return x.Sel.Name == "Scheme"
+	case *ast.Ident:
+		return ids[x.Name]
+	}
+	return false
+}
+
+// schemeIdents18: the identifiers of fn that always hold the unmodified scheme: the given parameters and
+// every local all of whose assignments are from a scheme expression.
+func schemeIdents18(fn *ast.FuncDecl, params map[string]bool) map[string]bool {
+	ids := map[string]bool{}
+	for k := range params {
+		ids[k] = true
+	}
+	for round := 0; round < 3; round++ {
+		good, bad := map[string]bool{}, map[string]bool{}
+		ast.Inspect(fn.Body, func(n ast.Node) bool {
+			switch s := n.(type) {
+			case *ast.AssignStmt:
+				for i, l := range s.Lhs {
+					id, ok := l.(*ast.Ident)
+					if !ok || id.Name == "_" {
+						continue
+					}
+					if len(s.Lhs) == len(s.Rhs) && (s.Tok == token.DEFINE || s.Tok == token.ASSIGN) && isSchemeExpr18(s.Rhs[i], ids) {
+						good[id.Name] = true
+					} else {
+						bad[id.Name] = true
+					}
+				}
+			case *ast.IncDecStmt:
+				if id, ok := s.X.(*ast.Ident); ok {
+					bad[id.Name] = true
+				}
+			case *ast.UnaryExpr:
+				if id, ok := s.X.(*ast.Ident); ok && s.Op == token.AND {
+					bad[id.Name] = true
+				}
+			}
+			return true
+		})
+		next := map[string]bool{}
+		for k := range params {
+			if !bad[k] {
+				next[k] = true
+			}
+		}
+		for k := range good {
+			if !bad[k] {
+				next[k] = true
+			}
+		}
+		ids = next
+	}
+	return ids
+}
+
+// errValue18: an expression that is certainly a non-nil error (errors.Wrapf(err, ..) is nil when err is).
+func errValue18(e ast.Expr) bool {
+	c, ok := unparen18(e).(*ast.CallExpr)
+	if !ok {
+		return false
+	}
+	switch src18(c.Fun) {
+	case "errors.Errorf", "errors.New", "fmt.Errorf":
+		return true
+	}
+	return false
+}
+
+// errReturn18: the statement list ends by returning an error: a certainly non-nil one (strict), or any
+// non-`nil` last result such as `err` inside `if err != nil` (!strict).
+func errReturn18(list []ast.Stmt, strict bool) bool {
+	if len(list) == 0 {
+		return false
+	}
+	r, ok := list[len(list)-1].(*ast.ReturnStmt)
+	if !ok || len(r.Results) == 0 {
+		return false
+	}
+	last := r.Results[len(r.Results)-1]
+	if strict {
+		return errValue18(last)
+	}
+	id, isId := unparen18(last).(*ast.Ident)
+	return !(isId && id.Name == "nil")
+}
+
+// stmtLists18 calls f on every statement list below n.
+func stmtLists18(n ast.Node, f func([]ast.Stmt)) {
+	ast.Inspect(n, func(n ast.Node) bool {
+		switch b := n.(type) {
+		case *ast.BlockStmt:
+			f(b.List)
+		case *ast.CaseClause:
+			f(b.Body)
+		case *ast.CommClause:
+			f(b.Body)
+		}
+		return true
+	})
+}
+
+func isNeNil18(e ast.Expr, name string) bool {
+	b, ok := unparen18(e).(*ast.BinaryExpr)
+	return ok && b.Op == token.NEQ && (src18(b.X) == name && src18(b.Y) == "nil" || src18(b.Y) == name && src18(b.X) == "nil")
+}
+
+// propagates18: the error result of the call c (made in fn) reaches fn's caller: `return h(..)`,
+// `.., e := h(..)` directly followed by `if e != nil { return .., <non-nil> }`, or the same as an if-init.
+// A callee without results propagates nothing, but then its own `return <error>` cannot compile either.
+func propagates18(fn *ast.FuncDecl, c *ast.CallExpr) bool {
+	ok := false
+	lastLhs := func(a *ast.AssignStmt) string {
+		if len(a.Rhs) == 1 && unparen18(a.Rhs[0]) == ast.Expr(c) && len(a.Lhs) > 0 {
+			if id, isId := a.Lhs[len(a.Lhs)-1].(*ast.Ident); isId && id.Name != "_" {
+				return id.Name
+			}
+		}
+		return ""
+	}
+	stmtLists18(fn.Body, func(list []ast.Stmt) {
+		for i, st := range list {
+			switch s := st.(type) {
+			case *ast.ReturnStmt:
+				if len(s.Results) == 1 && unparen18(s.Results[0]) == ast.Expr(c) {
+					ok = true
+				}
+			case *ast.AssignStmt:
+				if e := lastLhs(s); e != "" && i+1 < len(list) {
+					if is, isIf := list[i+1].(*ast.IfStmt); isIf && is.Init == nil && isNeNil18(is.Cond, e) && errReturn18(is.Body.List, false) {
+						ok = true
+					}
+				}
+			case *ast.IfStmt:
+				if a, isA := s.Init.(*ast.AssignStmt); isA {
+					if e := lastLhs(a); e != "" && isNeNil18(s.Cond, e) && errReturn18(s.Body.List, false) {
+						ok = true
+					}
+				}
+			}
+		}
+	})
+	return ok
+}
+
+// schemeEqLits18: cond is `s == "a" || s == "b" || ...` with s the unmodified scheme; returns the literals.
+func schemeEqLits18(cond ast.Expr, ids map[string]bool) []ast.Expr {
+	b, ok := unparen18(cond).(*ast.BinaryExpr)
+	if !ok {
+		return nil
+	}
+	switch b.Op {
+	case token.LOR:
+		l, r := schemeEqLits18(b.X, ids), schemeEqLits18(b.Y, ids)
+		if l == nil || r == nil {
+			return nil
+		}
+		return append(l, r...)
+	case token.EQL:
+		if lit, ok := unparen18(b.Y).(*ast.BasicLit); ok && lit.Kind == token.STRING && isSchemeExpr18(b.X, ids) {
+			return []ast.Expr{lit}
+		}
+		if lit, ok := unparen18(b.X).(*ast.BasicLit); ok && lit.Kind == token.STRING && isSchemeExpr18(b.Y, ids) {
+			return []ast.Expr{lit}
+		}
+	}
+	return nil
+}
+
+// chainAsSwitch18 normalises an if / else-if [/ else] chain of at least two branches, every condition of
+// which compares the unmodified scheme with string literals, to the equivalent switch statement (the final
+// else is the default clause).  Anything else (an init statement, another kind of condition) gives nil.
+func chainAsSwitch18(is *ast.IfStmt, ids map[string]bool) *ast.SwitchStmt {
+	sw := &ast.SwitchStmt{Switch: is.Pos(), Tag: ast.NewIdent("scheme"), Body: &ast.BlockStmt{}}
+	for cur := is; ; {
+		lits := schemeEqLits18(cur.Cond, ids)
+		if cur.Init != nil || lits == nil {
+			return nil
+		}
+		sw.Body.List = append(sw.Body.List, &ast.CaseClause{List: lits, Body: cur.Body.List})
+		switch e := cur.Else.(type) {
+		case *ast.IfStmt:
+			cur = e
+			continue
+		case *ast.BlockStmt:
+			sw.Body.List = append(sw.Body.List, &ast.CaseClause{Body: e.List})
+		}
+		break
+	}
+	if len(sw.Body.List) < 2 || len(sw.Body.List) == 2 && sw.Body.List[1].(*ast.CaseClause).List == nil {
+		return nil
+	}
+	return sw
+}
+
+// one scheme switch executed on behalf of a function
+type schemeSw18 struct {
+	sw         *ast.SwitchStmt
+	propagated bool // an error returned by the switch's default clause is returned by the outer function
+}
+
+func schemeSwitchesDeep(fn *ast.FuncDecl, funcs map[string]*ast.FuncDecl) []schemeSw18 {
 	if fn == nil || fn.Body == nil {
 		return nil
 	}
+	var out []schemeSw18
+	var walk func(fn *ast.FuncDecl, params map[string]bool, depth int, propagated bool, stack []*ast.FuncDecl)
+	walk = func(fn *ast.FuncDecl, params map[string]bool, depth int, propagated bool, stack []*ast.FuncDecl) {
+		ids := schemeIdents18(fn, params)
+		inChain := map[*ast.IfStmt]bool{}
+		ast.Inspect(fn.Body, func(n ast.Node) bool {
+			switch x := n.(type) {
+			case *ast.SwitchStmt:
+				if x.Tag != nil && isSchemeExpr18(x.Tag, ids) {
+					out = append(out, schemeSw18{x, propagated})
+				}
+			case *ast.IfStmt:
+				// the same dispatch written as if / else-if over `scheme == "lit" || ...`
+				if !inChain[x] {
+					for e, ok := x.Else.(*ast.IfStmt); ok; e, ok = e.Else.(*ast.IfStmt) {
+						inChain[e] = true
+					}
+					if sw := chainAsSwitch18(x, ids); sw != nil {
+						out = append(out, schemeSw18{sw, propagated})
+					}
+				}
+			case *ast.CallExpr:
+				h := callee18(fn, x, funcs)
+				if h == nil || depth == 0 {
+					return true
+				}
+				for _, s := range stack {
+					if s == h {
+						return true
+					}
+				}
+				bound := map[string]bool{}
+				pn := paramNames18(h)
+				for i, a := range x.Args {
+					if i < len(pn) && isSchemeExpr18(a, ids) {
+						bound[pn[i]] = true
+					}
+				}
+				walk(h, bound, depth-1, propagated && propagates18(fn, x), append(stack, h))
+			}
+			return true
+		})
+	}
+	walk(fn, nil, 2, true, []*ast.FuncDecl{fn})
+	return out
+}
+
+// nilGuardBeforeSchemeUse18: the first place where fn reads `<x>.Scheme` (to switch on it or to pass it to a
+// helper) is preceded, at the top level of fn's body (hence on every path), by
+// `if <x> == nil { ... return .., <error> }`.
+func nilGuardBeforeSchemeUse18(fn *ast.FuncDecl) bool {
+	var use *ast.SelectorExpr
 	ast.Inspect(fn.Body, func(n ast.Node) bool {
-		if sw, ok := n.(*ast.SwitchStmt); ok && sw.Tag != nil {
-			if sel, ok := sw.Tag.(*ast.SelectorExpr); ok && sel.Sel.Name == "Scheme" {
-				out = append(out, sw)
+		if sel, ok := n.(*ast.SelectorExpr); ok && use == nil && sel.Sel.Name == "Scheme" {
+			if _, isId := sel.X.(*ast.Ident); isId {
+				use = sel
+			}
+		}
+		return use == nil
+	})
+	if use == nil {
+		return false
+	}
+	x := use.X.(*ast.Ident).Name
+	for _, st := range fn.Body.List {
+		if st.End() > use.Pos() {
+			break
+		}
+		is, ok := st.(*ast.IfStmt)
+		if !ok || is.Init != nil {
+			continue
+		}
+		c, ok := unparen18(is.Cond).(*ast.BinaryExpr)
+		if !ok || c.Op != token.EQL {
+			continue
+		}
+		l, r := src18(c.X), src18(c.Y)
+		if (l == x && r == "nil" || l == "nil" && r == x) && errReturn18(is.Body.List, true) {
+			return true
+		}
+	}
+	return false
+}
+
+// nonStringGuard18: fn (or a same-package helper whose error fn hands on) takes the value of the key
+// "address", asserts it to be a string in the comma-ok form, and returns a non-nil error when it is not:
+// `if k, ok := v.(string); ok {..} else { return <error> }`, `if k, ok := v.(string); !ok { return <error> }`,
+// or the assertion as a statement directly followed by such an `if ok`/`if !ok`.
+func nonStringGuard18(fn *ast.FuncDecl, funcs map[string]*ast.FuncDecl, depth int) bool {
+	if fn == nil || fn.Body == nil {
+		return false
+	}
+	// identifiers holding <map>["address"]
+	isAddrKey := func(e ast.Expr) bool {
+		ix, ok := unparen18(e).(*ast.IndexExpr)
+		if !ok {
+			return false
+		}
+		lit, ok := ix.Index.(*ast.BasicLit)
+		return ok && lit.Value == `"address"`
+	}
+	vals := map[string]bool{}
+	ast.Inspect(fn.Body, func(n ast.Node) bool {
+		if a, ok := n.(*ast.AssignStmt); ok && len(a.Rhs) == 1 && isAddrKey(a.Rhs[0]) {
+			if id, ok := a.Lhs[0].(*ast.Ident); ok {
+				vals[id.Name] = true
 			}
 		}
 		return true
 	})
-	return out
+	// `_, okName := v.(string)` on such a value
+	assertOk := func(st ast.Stmt) string {
+		a, ok := st.(*ast.AssignStmt)
+		if !ok || len(a.Lhs) != 2 || len(a.Rhs) != 1 {
+			return ""
+		}
+		ta, ok := unparen18(a.Rhs[0]).(*ast.TypeAssertExpr)
+		if !ok || ta.Type == nil || src18(ta.Type) != "string" {
+			return ""
+		}
+		if id, isId := unparen18(ta.X).(*ast.Ident); !(isId && vals[id.Name]) && !isAddrKey(ta.X) {
+			return ""
+		}
+		if id, ok := a.Lhs[1].(*ast.Ident); ok && id.Name != "_" {
+			return id.Name
+		}
+		return ""
+	}
+	// the if statement rejects !okName
+	rejects := func(is *ast.IfStmt, okName string) bool {
+		c := src18(is.Cond)
+		if c == "!"+okName {
+			return errReturn18(is.Body.List, true)
+		}
+		if c == okName {
+			if e, ok := is.Else.(*ast.BlockStmt); ok {
+				return errReturn18(e.List, true)
+			}
+		}
+		return false
+	}
+	found := false
+	ast.Inspect(fn.Body, func(n ast.Node) bool {
+		if is, ok := n.(*ast.IfStmt); ok && is.Init != nil {
+			if okName := assertOk(is.Init); okName != "" && rejects(is, okName) {
+				found = true
+			}
+		}
+		return true
+	})
+	stmtLists18(fn.Body, func(list []ast.Stmt) {
+		for i, st := range list {
+			if okName := assertOk(st); okName != "" && i+1 < len(list) {
+				if is, ok := list[i+1].(*ast.IfStmt); ok && is.Init == nil && rejects(is, okName) {
+					found = true
+				}
+			}
+		}
+	})
+	if found || depth == 0 {
+		return found
+	}
+	ast.Inspect(fn.Body, func(n ast.Node) bool {
+		if c, ok := n.(*ast.CallExpr); ok && !found {
+			if h := callee18(fn, c, funcs); h != nil && h != fn && propagates18(fn, c) && nonStringGuard18(h, funcs, depth-1) {
+				found = true
+			}
+		}
+		return true
+	})
+	return found
 }
 
 var ctorRe = regexp.MustCompile(`(?:=|return)\s*&?(?:[a-z0-9]+\.)?([A-Z][A-Za-z0-9]*)\s*[({]`)
@@ -81,7 +545,8 @@ func switchTable(sw *ast.SwitchStmt, where string) (rows []string, defErr bool) 
 		}
 		if cc.List == nil {
 			hasDefault = true
-			defErr = strings.Contains(body, "return") && strings.Contains(body, "errors.Errorf")
+			// the clause ends by returning a certainly non-nil error (not errors.Wrapf(err, ..), nil when err is)
+			defErr = errReturn18(cc.Body, true)
 			continue
 		}
 		var keys []string
@@ -123,12 +588,14 @@ func switchTable(sw *ast.SwitchStmt, where string) (rows []string, defErr bool) 
 	return
 }
 
-func emitTable(b *strings.Builder, name, doc string, sw *ast.SwitchStmt, where string) {
-	if sw == nil {
+func emitTable(b *strings.Builder, name, doc string, ss schemeSw18, where string) {
+	if ss.sw == nil {
 		fail("%s: scheme switch not found", where)
 		return
 	}
-	rows, defErr := switchTable(sw, where)
+	rows, defErr := switchTable(ss.sw, where)
+	// a default error raised in a helper counts only if every call site on the way hands it on
+	defErr = defErr && ss.propagated
 	fmt.Fprintf(b, "/-- %s -/\ndef %s : List (List String × String) :=\n  [%s]\n", doc, name, strings.Join(rows, ",\n   "))
 	fmt.Fprintf(b, "/-- the switch's default clause returns a configuration error -/\ndef %sDefaultIsError : Bool := %v\n\n", name, defErr)
 }
@@ -311,7 +778,8 @@ func extractC18(o *out) {
 
 	// ---- scheme switches
 	srv := parse("internal/server/server.go")
-	sw := schemeSwitches(findFunc(srv, "", "unmarshalServer"))
+	srvFuncs := pkgFuncs18("internal/server/server.go")
+	sw := schemeSwitchesDeep(findFunc(srv, "", "unmarshalServer"), srvFuncs)
 	if len(sw) != 1 {
 		fail("unmarshalServer: expected 1 scheme switch, found %d", len(sw))
 	} else {
@@ -319,14 +787,15 @@ func extractC18(o *out) {
 	}
 	chn := parse("internal/server/channel.go")
 	uc := findFunc(chn, "", "unmarshalChannel")
-	sw = schemeSwitches(uc)
+	sw = schemeSwitchesDeep(uc, srvFuncs)
 	if len(sw) != 1 {
 		fail("unmarshalChannel: expected 1 scheme switch, found %d", len(sw))
 	} else {
 		emitTable(b, "channelSchemes", "internal/server/channel.go unmarshalChannel: scheme → channel type", sw[0], "unmarshalChannel")
 	}
 	ups := parse("internal/client/upstream/upstream.go")
-	sw = schemeSwitches(findFunc(ups, "", "unmarshalUpstream"))
+	upsFuncs := pkgFuncs18("internal/client/upstream/upstream.go")
+	sw = schemeSwitchesDeep(findFunc(ups, "", "unmarshalUpstream"), upsFuncs)
 	if len(sw) != 1 {
 		fail("unmarshalUpstream: expected 1 scheme switch, found %d", len(sw))
 	} else {
@@ -334,7 +803,7 @@ func extractC18(o *out) {
 	}
 	lst := parse("internal/client/listener/listener.go")
 	lf := findFunc(lst, "Listeners", "UnmarshalFlag")
-	sw = schemeSwitches(lf)
+	sw = schemeSwitchesDeep(lf, pkgFuncs18("internal/client/listener/listener.go"))
 	if len(sw) != 2 {
 		fail("Listeners.UnmarshalFlag: expected 2 scheme switches (JSON branch, ~ branch), found %d", len(sw))
 	} else {
@@ -367,7 +836,7 @@ func extractC18(o *out) {
 		fmt.Fprintf(b, "def listenerJsonPrefix : String := %s\ndef listenerJsonSuffix : String := %s\n\n", leanStr(jm[1]), leanStr(jm[2]))
 	}
 	pa := parse("internal/util/addr/protoaddress.go")
-	sw = schemeSwitches(findFunc(pa, "ProtoAddress", "Addr"))
+	sw = schemeSwitchesDeep(findFunc(pa, "ProtoAddress", "Addr"), pkgFuncs18("internal/util/addr/protoaddress.go"))
 	if len(sw) != 1 {
 		fail("ProtoAddress.Addr: expected 1 scheme switch, found %d", len(sw))
 	} else {
@@ -406,27 +875,8 @@ func extractC18(o *out) {
 
 	// ---- unmarshalChannel guards against a nil address
 	if uc != nil {
-		nilGuard, elseGuard := false, false
-		var swPos token.Pos
-		if s := schemeSwitches(uc); len(s) == 1 {
-			swPos = s[0].Pos()
-		}
-		ast.Inspect(uc.Body, func(n ast.Node) bool {
-			is, ok := n.(*ast.IfStmt)
-			if !ok {
-				return true
-			}
-			c := src18(is.Cond)
-			if c == "address == nil" && is.Pos() < swPos && strings.Contains(src18(is.Body), "return nil, errors.") {
-				nilGuard = true
-			}
-			if strings.HasPrefix(src18(is), "if k, ok := val.(string); ok") {
-				if e, ok := is.Else.(*ast.BlockStmt); ok && strings.Contains(src18(e), "return nil, errors.") {
-					elseGuard = true
-				}
-			}
-			return true
-		})
+		nilGuard := nilGuardBeforeSchemeUse18(uc)
+		elseGuard := nonStringGuard18(uc, srvFuncs, 2)
 		fmt.Fprintf(b, "/-- unmarshalChannel returns an error when no address was parsed, before `switch address.Scheme` dereferences it -/\ndef channelNilAddressGuard : Bool := %v\n", nilGuard)
 		fmt.Fprintf(b, "/-- unmarshalChannel returns an error when `address` is present but not a string -/\ndef channelNonStringGuard : Bool := %v\n\n", elseGuard)
 	}
@@ -439,7 +889,7 @@ func extractC18(o *out) {
 	ds := parse("internal/server/dns_server.go")
 	fn = findFunc(ds, "DnsServer", "Startup")
 	emitChain(b, "dnsStartupTls", "dns_server.go DnsServer.Startup: secure flag and scheme rewrite", ifChain(fn, "HasSuffix:", "DnsServer.Startup"))
-	if s := schemeSwitches(fn); len(s) == 1 {
+	if s := schemeSwitchesDeep(fn, srvFuncs); len(s) == 1 {
 		emitTable(b, "dnsStartupNets", "dns_server.go DnsServer.Startup: (rewritten) scheme → network of the DNS listener", s[0], "DnsServer.Startup")
 	} else {
 		fail("DnsServer.Startup: expected 1 scheme switch, found %d", len(s))
